@@ -70,6 +70,90 @@ theorem keeps_retrying (req : Nat) (atts : List Attempt)
     · simpa [execute, dialPeer] using ih hrest
     · simpa [execute, dialPeer, hy, hr] using ih hrest
 
+/-! ### A backoff that gives up (`max_elapsed_time`): known finding `dialsys.hist:backoff-gives-up` -/
+
+/-- Authenticity does not depend on the backoff: success is only ever reported with a link to the
+requested peer. -/
+theorem budget_result_authentic (req : Nat) (hreq : req ≠ 0) (b : Nat) (atts : List Attempt) (p : Nat)
+    (h : executeBudget req atts b = some (.link p)) : p = req := by
+  induction atts generalizing b with
+  | nil => simp [executeBudget] at h
+  | cons a rest ih =>
+    unfold executeBudget at h
+    cases hd : dialPeer req a with
+    | link q =>
+      simp [hd] at h
+      subst h
+      exact dialPeer_authentic req hreq a q hd
+    | err f =>
+      cases f
+      · cases b with
+        | zero => simp [hd] at h
+        | succ b => simp [hd] at h; exact ih b h
+      · simp [hd] at h
+
+/-- REFUTED for a dialer whose backoff gives up: "after any prefix of impostors and failures, as
+soon as the requested peer answers, the dial resolves". Witness: budget 0, one failed attempt —
+the dialer has ended with an error before X answers (replayed on the real code by engine
+`dialsys`, history `backoff-gives-up`: the routine is dead, the held reference is never served). -/
+theorem recovers_budget_false :
+    ¬ (∀ (req b : Nat) (pre post : List Attempt),
+        (∀ a ∈ pre, a = .failed ∨ ∃ y, a = .answered y ∧ y ≠ req ∧ req ≠ 0) →
+        executeBudget req (pre ++ .answered req :: post) b = some (.link req)) := by
+  intro h
+  have := h 2 0 [.failed] [] (by simp)
+  simp [executeBudget, dialPeer] at this
+
+/-- … it holds as long as the prefix fits the budget … -/
+theorem recovers_budget_partial (req b : Nat) (pre post : List Attempt)
+    (hpre : ∀ a ∈ pre, a = .failed ∨ ∃ y, a = .answered y ∧ y ≠ req ∧ req ≠ 0)
+    (hb : pre.length ≤ b) :
+    executeBudget req (pre ++ .answered req :: post) b = some (.link req) := by
+  induction pre generalizing b with
+  | nil => simp [executeBudget, dialPeer]
+  | cons a rest ih =>
+    have ha := hpre a (by simp)
+    have hrest : ∀ x ∈ rest, x = .failed ∨ ∃ y, x = .answered y ∧ y ≠ req ∧ req ≠ 0 :=
+      fun x hx => hpre x (by simp [hx])
+    cases b with
+    | zero => simp at hb
+    | succ b =>
+      have hb' : rest.length ≤ b := by simpa using hb
+      rcases ha with rfl | ⟨y, rfl, hy, hr⟩
+      · simpa [executeBudget, dialPeer] using ih b hrest hb'
+      · simpa [executeBudget, dialPeer, hy, hr] using ih b hrest hb'
+
+/-- … and a LATER request that starts a fresh execution (a new reference on the key restarts the
+ended routine) is satisfied as soon as the requested peer answers, whatever went before. -/
+theorem later_request_recovers (req b : Nat) (post : List Attempt) :
+    executeBudget req (.answered req :: post) b = some (.link req) := by
+  simp [executeBudget, dialPeer]
+
+/-- an exhausted budget is an error, never a success and never "still retrying" -/
+theorem budget_exhausted_gives_up (req b : Nat) (pre rest : List Attempt)
+    (hpre : ∀ a ∈ pre, a = .failed ∨ ∃ y, a = .answered y ∧ y ≠ req ∧ req ≠ 0)
+    (hb : pre.length = b + 1) :
+    executeBudget req (pre ++ rest) b = some (.err false) := by
+  induction pre generalizing b with
+  | nil => simp at hb
+  | cons a tl ih =>
+    have ha := hpre a (by simp)
+    have htl : ∀ x ∈ tl, x = .failed ∨ ∃ y, x = .answered y ∧ y ≠ req ∧ req ≠ 0 :=
+      fun x hx => hpre x (by simp [hx])
+    cases b with
+    | zero =>
+      rcases ha with rfl | ⟨y, rfl, hy, hr⟩
+      · simp [executeBudget, dialPeer]
+      · simp [executeBudget, dialPeer, hy, hr]
+    | succ b =>
+      have hb' : tl.length = b + 1 := by simpa using hb
+      rcases ha with rfl | ⟨y, rfl, hy, hr⟩
+      · simpa [executeBudget, dialPeer] using ih b htl hb'
+      · simpa [executeBudget, dialPeer, hy, hr] using ih b htl hb'
+
+example : executeBudget 2 [.answered 3, .failed, .answered 2] 1 = some (.err false) ∧
+    executeBudget 2 [.answered 3, .failed, .answered 2] 2 = some (.link 2) := by decide
+
 /-- Non-vacuity. -/
 example : execute 2 [.answered 3, .failed, .answered 3, .answered 2, .answered 3] = some (.link 2) := by
   decide
